@@ -15,7 +15,7 @@ fn resize(xs: &mut Xstate) -> Xresult {
     let d2 = p.downcast_mut::<D2Context>().ok_or(Xerr::TypeError)?;
     let h = xs.pop_data()?.to_usize()?;
     let w = xs.pop_data()?.to_usize()?;
-    let n = w * h;
+    let n = w.checked_mul(h).ok_or(Xerr::IntegerOverflow)?;
     d2.width = w;
     d2.height = h;
     d2.data.resize(n, 0);
